@@ -2983,3 +2983,112 @@ def start_location_rule(db, chk, cfg, rule="START.location"):
                       % (bad, n, d(scen[2]), d(scen[1]), d(scen[0]), locvar, name_of.get(got, "returned early" if got is None else got),
                          name_of.get(want, "wholly on / inside the boundary (early return)" if want is None else want)), f.where, cfg=cfg)
     return n
+
+
+# ---------------------------------------------------------------------------
+# CORNER.chain: the corners RectClip64 adds when it closes a path form one walk (C08)
+# ---------------------------------------------------------------------------
+
+def corner_chain_rule(db, chk, cfg, rule="CORNER.chain"):
+    """When the scan of RectClip64::ExecuteInternal ends outside the rectangle, the result is closed by walking from the side region
+    the path ended in, through the side regions it visited before its first crossing (start_locs_), to the region of the first
+    crossing, adding a rectangle corner for every change of region.  The closing block is executed for every end region, first-crossing
+    region and every start_locs_ sequence of length 0..3 (1360 cases; AddCorner recorded, range-for run concretely) and the corner
+    steps must be those of that one walk: each step starts in the region the walk has reached, the last one heads for first_cross_."""
+    f = db.one("RectClip64::ExecuteInternal")
+    par = {}
+    for x in walk(f.body):
+        for c in kids(x):
+            if isinstance(c, dict):
+                par[id(c)] = x
+    main = None
+    for x in kids(f.body):
+        if x.get("kind") == "WhileStmt" and any(y.get("kind") in ("CallExpr", "CXXMemberCallExpr") and db.callee(y)[0] == "GetNextLocation" for y in walk(kids(x)[-1])):
+            main = x
+    if main is None:
+        raise AnalysisBroken("%s: main loop of RectClip64::ExecuteInternal not found" % rule)
+    gnl = [y for y in walk(kids(main)[-1]) if y.get("kind") in ("CallExpr", "CXXMemberCallExpr") and db.callee(y)[0] == "GetNextLocation"][0]
+    locvar = canon(db.call_args(gnl)[1])
+    post = kids(f.body)[kids(f.body).index(main) + 1:]
+    rf = [y for s in post for y in walk(s) if y.get("kind") == "CXXForRangeStmt" and any(z.get("kind") == "CXXMemberCallExpr" and db.callee(z)[0] == "AddCorner" for z in walk(y))]
+    block = None
+    if len(rf) == 1:
+        node = rf[0]
+        while node is not None:
+            node = par.get(id(node))
+            if node is not None and node.get("kind") == "CompoundStmt":
+                outside = [z for z in walk(node) if z.get("kind") == "CXXMemberCallExpr" and db.callee(z)[0] == "AddCorner" and not any(z is w for w in walk(rf[0]))]
+                if outside:
+                    block = node
+                    break
+    if block is None:
+        # an index loop instead of the range-for: take the last top-level statement's innermost block holding two AddCorner calls
+        cands = [y for s in post for y in walk(s) if y.get("kind") == "CompoundStmt" and
+                 sum(1 for z in walk(y) if z.get("kind") == "CXXMemberCallExpr" and db.callee(z)[0] == "AddCorner") >= 2]
+        if not cands:
+            raise AnalysisBroken("%s: the closing block of RectClip64::ExecuteInternal (two AddCorner sites) not found" % rule)
+        block = cands[-1]
+    rng_name = "start_locs_"
+    import itertools
+    sides = [0, 1, 2, 3]
+    n = bad = 0
+    first = None
+    for loc0 in sides:
+        for fc in sides:
+            for L in range(0, 4):
+                for seq in itertools.product(sides, repeat=L):
+                    rec = []
+                    it = Interp(db, {locvar: loc0, "first_cross_": fc, rng_name: list(seq)}, [])
+                    it.concrete_loops = True
+
+                    def hook(name, argv, nd, it=it, rec=rec, seq=seq):
+                        if name in ("size", "empty") and nd.get("kind") == "CXXMemberCallExpr" and canon(db.member_base(nd)).replace("this->", "") == rng_name:
+                            return len(seq) if name == "size" else (len(seq) == 0)
+                        if name == "operator[]" and argv and isinstance(argv[0], list):
+                            return argv[0][int(argv[1])]
+                        if name == "AddCorner":
+                            args = db.call_args(nd)
+                            a0 = canon(args[0])
+                            frm = it.ev(args[0])
+                            g = db.callee_func(nd)
+                            by_flag = g is not None and "bool" in qt(g.params[1])
+                            v1 = it.ev(args[1])
+                            if by_flag:
+                                rec.append((frm, bool(v1)))
+                                it.env[a0] = (frm + (1 if v1 else 3)) % 4
+                            else:
+                                rec.append((frm, (frm + 1) % 4 == v1))
+                            return None
+                        if name == "HeadingClockwise" and argv is not None and len(argv) == 2:
+                            return (argv[0] + 1) % 4 == argv[1]
+                        return NotImplemented
+                    it.call_hook = hook
+                    try:
+                        it.exec(block)
+                    except _Return:
+                        pass
+                    except Unsupported as e:
+                        raise AnalysisBroken("%s: cannot interpret the closing block of RectClip64::ExecuteInternal: %s" % (rule, e))
+                    want = []
+                    cur = loc0
+                    for l2 in seq:
+                        if l2 == cur:
+                            continue
+                        want.append((cur, (cur + 1) % 4 == l2))
+                        cur = l2
+                    if cur != fc:
+                        want.append((cur, (cur + 1) % 4 == fc))
+                    n += 1
+                    if rec != want:
+                        bad += 1
+                        if first is None:
+                            first = (loc0, fc, seq, list(rec), want)
+    chk.instance(rule, {"function": f.qual, "cases": n, "wrong": bad, "cfg": cfg}, ok=not bad)
+    if bad:
+        nm = ["Left", "Top", "Right", "Bottom"]
+        loc0, fc, seq, rec, want = first
+        fmt = lambda lst: "[" + ", ".join("%s %s" % (nm[a], "clockwise" if c else "anticlockwise") for a, c in lst) + "]"
+        chk.violation(rule, f.qual, "closing", "the corners added when RectClip64::ExecuteInternal closes a path are not one walk in %d of %d cases, e.g. path ends in %s, "
+                      "start regions %s, first crossing in %s: corner steps %s, the walk is %s - a wrong corner (or none) is appended and the winding inside the rectangle changes"
+                      % (bad, n, nm[loc0], [nm[s] for s in seq], nm[fc], fmt(rec), fmt(want)), where(block), cfg=cfg)
+    return n
